@@ -35,7 +35,7 @@ CLAIMS = {
     "C05": (
         "other",
         "instance call-graph SCC analysis; taint analysis of declared numbers with guard-dominance discharge; allocation-size taint; loop progress rule; panic-site inventory with discharge classes",
-        "Decides: the workspace's instance call graph is acyclic (bounded stack); every overflow/division assert and every subtraction in parser-reachable code either has only measures of consumed input as operands or is discharged by a dominating guard, a bounded-result callee, or a listed bound; no allocation is sized by a declared number; every loop has a progress statement on every cycle; every panic-capable construct (unwrap, indexing, advance, explicit panic) is discharged by a class (scanned offsets, digits, pop-after-push, ...) or listed. Wall time, heap constants, allocator aborts and termination of Renumber::transfer on cyclic graphs are not decided. R7: a token function reports a match only after the cursor moved by a provably positive amount, so the parsers' loops over alternatives cannot spin. R2 also enumerates the integer methods of std that trap like the operators (abs, pow, neg, ...): none takes a declared number. R4: the listed reason for NonZeroU64::new(..).unwrap() is checked (digits parser unreachable from the edge on which the look-ahead primitive answered '0'); added assertions are discharged by an interval evaluator that knows dominating comparisons, return-value joins of workspace functions and byte classes. R4 also lists std functions with a hidden panic condition (String::truncate, Vec::remove, copy_from_slice, str slicing, ...): each use in parser-reachable code is reported.",
+        "Decides: the workspace's instance call graph is acyclic (bounded stack); every overflow/division assert and every subtraction in parser-reachable code either has only measures of consumed input as operands or is discharged by a dominating guard, a bounded-result callee, or a listed bound; no allocation is sized by a declared number; every loop has a progress statement on every cycle; every panic-capable construct (unwrap, indexing, advance, explicit panic) is discharged by a class (scanned offsets, digits, pop-after-push, ...) or listed. Wall time, heap constants, allocator aborts and termination of Renumber::transfer on cyclic graphs are not decided. R7: a token function reports a match only after the cursor moved by a provably positive amount, so the parsers' loops over alternatives cannot spin. R2 also enumerates the integer methods of std that trap like the operators (abs, pow, neg, ...): none takes a declared number. R4: the listed reason for NonZeroU64::new(..).unwrap() is checked (digits parser unreachable from the edge on which the look-ahead primitive answered '0'); added assertions are discharged by an interval evaluator that knows dominating comparisons, return-value joins of workspace functions and byte classes. R4 also lists std functions with a hidden panic condition (String::truncate, Vec::remove, copy_from_slice, str slicing, ...): each use in parser-reachable code is reported. R8 (shared with C06-R1): range checks before lossy conversions, every lossy `as` cast listed with its bound.",
         "DESIGN.md §4 C05",
     ),
     "C06": (
@@ -47,7 +47,7 @@ CLAIMS = {
     "C07": (
         "other",
         "interprocedural typestate analysis over MIR (blank-normal form of the cursor, path-sensitive abstract interpretation with summaries); exact byte-class extraction for the end-of-word test; CFG loop / dominance rules and sibling cross-check for the statement dispatch",
-        "Equality of the values parsed from two renderings of one formula is a runtime relation and is not decided. Decided are the structural necessary conditions the layout freedoms rest on: (1) on every path from every cnf/wcnf/gcnf/solver-log entry point, a token parser that decides on the byte at the cursor is attempted only when the cursor cannot stand on a space or tab (everything consumed was consumed together with its trailing blanks, or skip_whitespace ran) - any amount of blanks between tokens, at line ends and at line starts; (2) a word ends exactly before space, tab, CR, LF or end of input; (3) in all three statement loops and header prologues comment lines and blank lines are alternatives whose success continues the loop, identically in the three siblings; (4) every required line end is `newline or end of input`; (5) inside a clause, and between weight/group and literals, the line-break-and-comments skipper is tried before an error is raised, and it loops over comments and newlines. LF/CRLF is text::newline's class (C16-R3); numeral spelling (leading zeros, -0) is value-level (C13). R7: a scan that starts at a constant offset K > 0 steps over examined bytes only - each matched against a byte other than a line feed on the way, nothing consumed in between. R8 (shared with C08-R1): errors for tokens on a continuation line are located from a mark set on that line.",
+        "Equality of the values parsed from two renderings of one formula is a runtime relation and is not decided. Decided are the structural necessary conditions the layout freedoms rest on: (1) on every path from every cnf/wcnf/gcnf/solver-log entry point, a token parser that decides on the byte at the cursor is attempted only when the cursor cannot stand on a space or tab (everything consumed was consumed together with its trailing blanks, or skip_whitespace ran) - any amount of blanks between tokens, at line ends and at line starts; (2) a word ends exactly before space, tab, CR, LF or end of input; (3) in all three statement loops and header prologues comment lines and blank lines are alternatives whose success continues the loop, identically in the three siblings; (4) every required line end is `newline or end of input`; (5) inside a clause, and between weight/group and literals, the line-break-and-comments skipper is tried before an error is raised, and it loops over comments and newlines. LF/CRLF is text::newline's class (C16-R3); numeral spelling (leading zeros, -0) is value-level (C13). R7: a scan that starts at a constant offset K > 0 steps over examined bytes only - each matched against a byte other than a line feed on the way, nothing consumed in between. R8 (shared with C08-R1): errors for tokens on a continuation line are located from a mark set on that line. R9 (shared with C13-R1b/R3): the digit scanners pass over every digit of a numeral and report its exact value or overflow, however it is spelled.",
         "DESIGN.md §13",
     ),
     "C08": (
@@ -65,7 +65,7 @@ CLAIMS = {
     "C10": (
         "other",
         "dominance rules over MIR (buffer reset discipline on the def-level call graph; guard extraction on the reader's compaction code); interprocedural typestate analysis (line ends looked at beyond the cursor)",
-        "The heap bound itself is a runtime quantity and is not decided. Decided are necessary structural conditions: every growth of a buffer that outlives the call, in code reachable from a streaming parser entry point, is dominated by a clear() of the same buffer; compaction in request_more is decided on live operands, moves the window to offset 0 and the buffer only grows when window + chunk does not fit. (Allocation sized by declared counts is C05-R5.) Also decided (R3, typestate over all token functions and streaming entry points): no second line end is looked at before the cursor moved past the first, so the look-ahead window - which the reader must keep - stays within one line (plus the AIGER comment section, one item by definition). R4 (shared with C05-R5): no allocation or reservation sized by a declared number. R1 treats every growing method of every std collection alike (push/insert/extend/entry/... on Vec, String, VecDeque, HashMap, HashSet, BTree*). R5 (shared with C05-R1): no recursion - the stack does not grow with the number of items. R6: look-ahead loops at a varying offset live in the token functions only; parser-level loops consume as they go. R7: chunk_size is stored by its setter and the constructor only.",
+        "The heap bound itself is a runtime quantity and is not decided. Decided are necessary structural conditions: every growth of a buffer that outlives the call, in code reachable from a streaming parser entry point, is dominated by a clear() of the same buffer; compaction in request_more is decided on live operands, moves the window to offset 0 and the buffer only grows when window + chunk does not fit. (Allocation sized by declared counts is C05-R5.) Also decided (R3, typestate over all token functions and streaming entry points): no second line end is looked at before the cursor moved past the first, so the look-ahead window - which the reader must keep - stays within one line (plus the AIGER comment section, one item by definition). R4 (shared with C05-R5): no allocation or reservation sized by a declared number. R1 treats every growing method of every std collection alike (push/insert/extend/entry/... on Vec, String, VecDeque, HashMap, HashSet, BTree*). R5 (shared with C05-R1): no recursion - the stack does not grow with the number of items. R6: look-ahead loops at a varying offset live in the token functions only; parser-level loops consume as they go. R7: chunk_size is stored by its setter and the constructor only. R8 (shared with C01-R2): request_more / request / set_chunk_size are not called from parser or scanner code.",
         "DESIGN.md §4 C10",
     ),
     "C11": (
